@@ -1131,6 +1131,9 @@ func (c *Ctx) rteOblige(fr *Frame, st *State, kind string, in ssa.Instruction, g
 }
 
 func (c *Ctx) execInstr(fr *Frame, b *ssa.BasicBlock, st *State, in ssa.Instruction) bool {
+	if fr.top {
+		c.curTop = in
+	}
 	switch x := in.(type) {
 	case *ssa.DebugRef:
 		return true
@@ -1153,7 +1156,13 @@ func (c *Ctx) execInstr(fr *Frame, b *ssa.BasicBlock, st *State, in ssa.Instruct
 		c.store(st, p, c.sorts.zero(et))
 		fr.vals[x] = Val{T: x.Type(), S: ref, P: p}
 		if fr.top && privateAlloc(x) {
-			c.privRefs = append(c.privRefs, privRef{key, ref})
+			c.privRefs = append(c.privRefs, privRef{key: key, ref: ref})
+		} else if fr.top {
+			// private until it is captured by a closure: unknown code that runs
+			// before the closure exists cannot reach the variable
+			if until, ok := privateUntilCaptured(x); ok {
+				c.privRefs = append(c.privRefs, privRef{key: key, ref: ref, until: until})
+			}
 		}
 		return true
 	case *ssa.Phi:
@@ -1409,6 +1418,12 @@ func (c *Ctx) execInstr(fr *Frame, b *ssa.BasicBlock, st *State, in ssa.Instruct
 	case *ssa.MakeInterface:
 		xv := c.val(fr, st, x.X)
 		ct := c.sorts.ifaceCtor(x.X.Type())
+		defer func() {
+			if v, ok := fr.vals[x]; ok {
+				v.Dyn = &dynVal{T: x.X.Type(), V: xv}
+				fr.vals[x] = v
+			}
+		}()
 		if ct != nil && xv.S != "" {
 			c.bind(fr, x, x.Type(), fmt.Sprintf("(%s %s)", ct.name, xv.S))
 		} else {
@@ -2093,6 +2108,80 @@ func privateAlloc(a *ssa.Alloc) bool {
 		return true
 	}
 	return ok(a, false)
+}
+
+// privateUntilCaptured: the variable is only read and written directly by this
+// function, except that closures capture it; returns the capturing instructions.
+func privateUntilCaptured(a *ssa.Alloc) ([]ssa.Instruction, bool) {
+	refs := a.Referrers()
+	if refs == nil {
+		return nil, false
+	}
+	var until []ssa.Instruction
+	for _, r := range *refs {
+		switch x := r.(type) {
+		case *ssa.DebugRef:
+		case *ssa.Store:
+			if x.Val == a {
+				return nil, false
+			}
+		case *ssa.UnOp:
+			if x.Op != token.MUL {
+				return nil, false
+			}
+		case *ssa.MakeClosure:
+			until = append(until, x)
+		default:
+			return nil, false
+		}
+	}
+	return until, len(until) > 0
+}
+
+// mayHaveRun: instruction u may have been executed before control reaches cur.
+func mayHaveRun(u, cur ssa.Instruction) bool {
+	if u == nil || cur == nil || u.Parent() != cur.Parent() {
+		return true
+	}
+	ub, cb := u.Block(), cur.Block()
+	reach := func(from, to *ssa.BasicBlock, strict bool) bool {
+		seen := map[*ssa.BasicBlock]bool{}
+		var stack []*ssa.BasicBlock
+		if strict {
+			stack = append(stack, from.Succs...)
+		} else {
+			stack = []*ssa.BasicBlock{from}
+		}
+		for len(stack) > 0 {
+			b := stack[len(stack)-1]
+			stack = stack[:len(stack)-1]
+			if seen[b] {
+				continue
+			}
+			seen[b] = true
+			if b == to {
+				return true
+			}
+			stack = append(stack, b.Succs...)
+		}
+		return false
+	}
+	if ub == cb {
+		iu, ic := -1, -1
+		for i, in := range ub.Instrs {
+			if in == u {
+				iu = i
+			}
+			if in == cur {
+				ic = i
+			}
+		}
+		if iu < 0 || ic < 0 || iu < ic {
+			return true
+		}
+		return reach(ub, ub, true) // the block is in a cycle: an earlier iteration ran u
+	}
+	return reach(ub, cb, true)
 }
 
 // outsideLoop: v is defined outside the loop (a parameter, or an instruction of a block not in the loop body).
